@@ -214,7 +214,7 @@ def lit_form(rng, v, allow_byte=False):
 
 def c17_decls(tier, rng):
     decls = []
-    maxes = [1, 2, 3, 4, 7, 8, 127, 128, 254, 255]
+    maxes = [1, 2, 3, 4, 7, 8, 15, 16, 31, 32, 63, 64, 127, 128, 254, 255]
     n_each = 1 if tier == "quick" else 8
     extra = 30 if tier == "quick" else 320
     plan = [m for m in maxes for _ in range(n_each)] + [None] * extra
